@@ -11,6 +11,7 @@ import (
 	"strings"
 
 	"rare/pkg/readahead"
+	. "verifh/lib"
 )
 
 type c04Step struct {
@@ -395,8 +396,8 @@ func c04Exhaustive(L int) []Case {
 	return cases
 }
 
-func init() {
-	register(&Prop{
+func main() {
+	Main(&Prop{
 		Name:   "C04",
 		Header: "From Coq Require Import List NArith String.\nFrom RareV Require Import Corr.C04Case.\nImport ListNotations.\nOpen Scope N_scope. Open Scope string_scope.\n",
 		Rule: "exhaustive small scope (all streams over {a,CR,LF} up to length 3 (quick) / 5 (thorough) x all chunk compositions x bufSize 1..3 x {EOF, error without data, error with data}) " +
